@@ -21,3 +21,37 @@ package main
 //@ func pluginAccount(user *types.User, action int)
 //@   trusted
 
+
+// ---------------------------------------------------------------------------------------------
+// Ghost observation of what is queued to sessions: outCount[s] messages have been queued to session s.
+// ---------------------------------------------------------------------------------------------
+//@ ghost var outCount map[int]int
+
+// queueOut hands one message to the session's write loop or reports failure; it touches no topic state.
+//@ func (s *Session) queueOut(msg *ServerComMessage) (ok bool)
+//@   trusted
+//@   modifies outCount[s]
+//@   ensures ok ==> outCount[s] == old(outCount[s]) + 1 || s == nil
+//@   ensures !ok ==> outCount[s] == old(outCount[s])
+
+// broadcastToSessions fans a message out; a stuck session is detached, which can end a call in progress and
+// thereby publish a replacement message (so lastID may grow), but never lowers lastID or renames the topic.
+//@ func (t *Topic) broadcastToSessions(msg *ServerComMessage)
+//@   trusted
+//@   modifies *
+//@   ensures t.lastID >= old(t.lastID) && t.name == old(t.name) && t.cat == old(t.cat)
+//@   ensures rowMax[t.name] <= t.lastID || rowMax[t.name] == old(rowMax[t.name])
+
+// ---------------------------------------------------------------------------------------------
+// C01: message ids
+// ---------------------------------------------------------------------------------------------
+//@ func (t *Topic) saveAndBroadcastMessage(msg *ClientComMessage, asUid types.Uid, noEcho bool, attachments []string, head map[string]any, content any) (err error)
+//@   requires [C01] t != nil && msg != nil && msg.sess != nil
+//@   requires [C01] inv_seq: rowMax[t.name] <= t.lastID
+//@   ensures [C01] inv_seq:      rowMax[t.name] <= t.lastID
+//@   ensures [C01] failed_keeps: err != nil ==> t.lastID == old(t.lastID) && rowMax[t.name] == old(rowMax[t.name])
+//@   ensures [C01] advanced:     err == nil ==> t.lastID >= old(t.lastID) + 1
+//@   ensures [C01] same_topic:   t.name == old(t.name)
+//@   assert at call Save [C01] seq_is_next: $1.SeqId == old(t.lastID) + 1 && t.lastID == old(t.lastID) && $1.Topic == t.name
+//@   assert at call broadcastToSessions [C01] data_seq: t.lastID == old(t.lastID) + 1 && $1.Data != nil && $1.Data.SeqId == t.lastID
+//@   modifies *
